@@ -294,6 +294,10 @@ func (x *Exec) merge(sts []*State) (*State, error) {
 					keySort[t.key] = t.sort
 				}
 			}
+			// the allocation map stays linked as well: what was allocated at entry stays allocated
+			// (fresh() in postconditions is about the entry state)
+			keys["$alloc"] = true
+			keySort["$alloc"] = arraySort(SInt, SBool)
 		}
 		sortedKeys := make([]string, 0, len(keys))
 		for k := range keys {
